@@ -568,7 +568,8 @@ def run_tier(prop, tier, verif_seed, workers, runs=None, budget_s=None):
                 plan, viol, digest = r["plan"], r["violations"], r["digest"]
             path = write_replay(prop, f"{r['seed']}_{c[0]}_{c[1]}".replace("/", "_"), plan, viol, digest)
             conf = confirm_in_fresh_process(prop, path)
-            if conf is None or c not in conf[0] or conf[1] != digest:
+            stable = getattr(mod, "DIGEST_STABLE", True)  # C09: a nondeterminism violation has no stable digest by nature
+            if conf is None or c not in conf[0] or (stable and conf[1] != digest):
                 harness_errors.append(f"violation {c} seed={r['seed']} did not reproduce in a fresh process (nondeterminism): {conf}")
                 continue
             confirmed += 1
